@@ -891,6 +891,9 @@ fn h1_backend_conn(tcp: TcpStream, cur: Current) {
         }
         c.frag = if scn.bfrag == 0 { vec![] } else { sizes_cycle(scn.bfrag) };
         c.writes = 0;
+        if header(&head, "expect").map(|v| v.eq_ignore_ascii_case("100-continue")).unwrap_or(false) {
+            c.queue(b"HTTP/1.1 100 Continue\r\n\r\n");
+        }
         // ---- request body
         let mut rd = body_reader_of(&head, false);
         let mut paused_once = scn.bpause == 0;
@@ -1071,6 +1074,10 @@ fn h2_backend_conn(tcp: TcpStream, cur: Current, win: u32) {
                         let Ok(hs) = dec.decode(&block) else { return };
                         let path = hs.iter().find(|(k, _)| k == b":path").map(|(_, v)| String::from_utf8_lossy(v).to_string()).unwrap_or_default();
                         let end_stream = flags & 1 != 0;
+                        if !end_stream && hs.iter().any(|(k, v)| k == b"expect" && v.eq_ignore_ascii_case(b"100-continue")) {
+                            // interim response: the request body may come
+                            c.queue(&frame(T_HEADERS, 0x4, sid, &[0x08, 0x03, b'1', b'0', b'0']));
+                        }
                         if let Some(e) = rx.get(&sid) {
                             // a second header block on an open request stream: trailers
                             let idx = e.0;
@@ -1288,12 +1295,18 @@ fn h1_client(front: SocketAddr, sh: Arc<Shared>) {
         let c = conn.as_mut().unwrap();
         let body = pattern(scn.seed, i, 0, scn.req_len(i));
         let mut msg = vec![];
+        let mut held_body: Option<Vec<u8>> = None;
         match scn.req_fr.as_str() {
             "none" | "head" => msg.extend_from_slice(format!("{} {} HTTP/1.1\r\nHost: localhost\r\n\r\n", scn.method(), scn.path(i)).as_bytes()),
             "chunked" | "chunkedtr" => {
                 let tr = if scn.req_trailers() { "Trailer: X-Trailer\r\n" } else { "" };
                 msg.extend_from_slice(format!("POST {} HTTP/1.1\r\nHost: localhost\r\nTransfer-Encoding: chunked\r\n{tr}\r\n", scn.path(i)).as_bytes());
                 msg.extend_from_slice(&chunked_encode_tr(&body, scn.chunk, scn.req_trailers()));
+            }
+            "clexp" => {
+                // Expect: 100-continue — the body is held back until an interim (or the final) response arrives
+                msg.extend_from_slice(format!("POST {} HTTP/1.1\r\nHost: localhost\r\nContent-Length: {}\r\nExpect: 100-continue\r\n\r\n", scn.path(i), body.len()).as_bytes());
+                held_body = Some(body.clone());
             }
             _ => {
                 msg.extend_from_slice(format!("POST {} HTTP/1.1\r\nHost: localhost\r\nContent-Length: {}\r\n\r\n", scn.path(i), body.len()).as_bytes());
@@ -1334,7 +1347,7 @@ fn h1_client(front: SocketAddr, sh: Arc<Shared>) {
         let mut paused_once = scn.cpause == 0;
         let mut sender_done = false;
         loop {
-            if !c.pending() && !sender_done {
+            if !c.pending() && !sender_done && held_body.is_none() {
                 sender_done = true;
                 sh.with(i, |x| x.req_sender_blocked_or_done = true);
                 if abort {
@@ -1347,9 +1360,15 @@ fn h1_client(front: SocketAddr, sh: Arc<Shared>) {
                 if let Some(h) = take_head(&mut c.inb) {
                     let status = h.split(' ').nth(1).and_then(|s| s.parse::<i32>().ok()).unwrap_or(-1);
                     if (100..200).contains(&status) {
-                        // interim response: the final one follows
+                        // interim response: the final one follows; 100 Continue releases a held body
+                        if let Some(b) = held_body.take() {
+                            sh.with(i, |x| x.notes.push("client: 100 Continue received".into()));
+                            c.queue(&b);
+                        }
                         continue;
                     }
+                    // a final answer without 100 Continue: the body is not sent (RFC 9110 10.1.1)
+                    held_body = None;
                     sh.with(i, |x| x.status = status);
                     // no body may follow a HEAD answer, a 204 or a 304 (RFC 9110 6.4.1)
                     rd = if scn.req_fr == "head" || status == 204 || status == 304 { BodyRd::Len(0) } else { body_reader_of(&h, true) };
